@@ -240,9 +240,10 @@ def validator_construction(pm, ctx, rule):
     # generate_func_call drops a keyword only for None
     gfc = pm.func(PYTYPES + '.generate_func_call')
     filt = []
-    for n in own_nodes(gfc.node, include_nested=True):
-        if isinstance(n, ast.comprehension) and 'kwargs' in unparse(n.iter):
-            filt.extend(n.ifs)
+    from ..model import element_sites
+    for site in element_sites(gfc.node, include_nested=True):
+        if 'kwargs' in unparse(site['iter']):
+            filt.extend(site['ifs'])
     good = len(filt) == 1 and isinstance(filt[0], ast.Compare) and \
         isinstance(filt[0].ops[0], ast.IsNot) and \
         isinstance(filt[0].comparators[0], ast.Constant) and filt[0].comparators[0].value is None
